@@ -1,6 +1,7 @@
 package main
 
 import (
+	"sort"
 	"fmt"
 	"go/ast"
 	"go/token"
@@ -26,6 +27,7 @@ func checkC08(w *World, r *Report) {
 	checkC08Location(w, r)
 	checkC08TsrParams(w, r)
 	checkC08ParentPairing(w, r)
+	checkC08OneSlashApart(w, r)
 }
 
 func checkC08Guards(w *World, r *Report, d *dispatchInfo) {
@@ -70,12 +72,11 @@ func checkC08Guards(w *World, r *Report, d *dispatchInfo) {
 				}
 				if bo.Op == token.EQL && f.Val {
 					// path == CleanPath(path)
-					x, y := bo.X, bo.Y
-					if c, ok := x.(*ssa.Call); ok {
-						x, y = y, ssa.Value(c)
-					}
-					if c, ok := y.(*ssa.Call); ok && c.Call.StaticCallee() != nil && c.Call.StaticCallee().Name() == "CleanPath" && c.Call.Args[0] == pathArg && x == pathArg {
-						g.clean = true
+					for _, pr := range [][2]ssa.Value{{bo.X, bo.Y}, {bo.Y, bo.X}} {
+						x, y := pr[0], pr[1]
+						if c, ok := y.(*ssa.Call); ok && c.Call.StaticCallee() != nil && c.Call.StaticCallee().Name() == "CleanPath" && c.Call.Args[0] == pathArg && x == pathArg {
+							g.clean = true
+						}
 					}
 				}
 			}
@@ -462,6 +463,77 @@ func checkC08TsrParams(w *World, r *Report) {
 			ru.Check("sub-lookup parameters merged in "+name, w.Pos(as.Pos()), dst+" takes "+want, src == want, src)
 			return true
 		})
+		// (c) a candidate reported by a sub-lookup (its tsr result is true) carries the parameters the sub-lookup saved
+		// for that candidate (sub.tsrParams); the sub-context's live params keep changing while the sub-lookup goes on to
+		// other alternatives and must not have been merged into c.params when the candidate is recorded
+		type subLookup struct{ tsrVar, sub string }
+		var subs []subLookup
+		ast.Inspect(af.decl.Body, func(n ast.Node) bool {
+			as, ok := n.(*ast.AssignStmt)
+			if !ok || len(as.Lhs) != 2 || len(as.Rhs) != 1 {
+				return true
+			}
+			call, ok := as.Rhs[0].(*ast.CallExpr)
+			if !ok || exprStr(call.Fun) != "lookupByPath" || len(call.Args) < 5 {
+				return true
+			}
+			if sub := exprStr(call.Args[3]); sub != ctxName {
+				subs = append(subs, subLookup{exprStr(as.Lhs[1]), sub})
+			}
+			return true
+		})
+		for _, b := range af.g.Blocks {
+			if !b.Live {
+				continue
+			}
+			for _, nd := range b.Nodes {
+				as, ok := nd.(*ast.AssignStmt)
+				if !ok || len(as.Lhs) != 1 || exprStr(as.Lhs[0]) != "tsr" || exprStr(as.Rhs[0]) != "true" {
+					continue
+				}
+				for _, sl := range subs {
+					under := false
+					for _, f := range af.factsAt(b) {
+						for _, ff := range splitFact(f) {
+							if exprStr(ff.e) == sl.tsrVar && ff.val {
+								under = true
+							}
+						}
+					}
+					if !under {
+						continue
+					}
+					// the save: some statement reachable in the candidate's branch reads *sub.tsrParams into c.tsrParams
+					takes := false
+					merged := ""
+					for _, b2 := range af.g.Blocks {
+						if !b2.Live {
+							continue
+						}
+						for _, nd2 := range b2.Nodes {
+							a2, ok := nd2.(*ast.AssignStmt)
+							if !ok || len(a2.Lhs) != 1 || len(a2.Rhs) != 1 {
+								continue
+							}
+							rhs := exprStr(a2.Rhs[0])
+							if exprStr(a2.Lhs[0]) == "*"+ctxName+".tsrParams" && strings.Contains(rhs, "*"+sl.sub+".tsrParams") && af.dominates(b, b2) {
+								takes = true
+							}
+							if exprStr(a2.Lhs[0]) == "*"+ctxName+".params" && strings.Contains(rhs, "*"+sl.sub+".params") && (af.dominates(b2, b) && b2 != b) {
+								merged = w.Pos(a2.Pos())
+							}
+						}
+					}
+					why := ""
+					if merged != "" {
+						why = "the sub-context's live params were already merged into " + ctxName + ".params at " + merged
+					} else if !takes {
+						why = "the candidate's parameters are not taken from *" + sl.sub + ".tsrParams"
+					}
+					ru.Check("candidate from a sub-lookup in "+name, w.Pos(as.Pos()), "saved from the sub-context's tsr copy; the sub-context's live params not merged before", why == "", orDefault(why, "*"+sl.sub+".tsrParams"))
+				}
+			}
+		}
 	}
 }
 
@@ -517,5 +589,123 @@ func checkC08ParentPairing(w *World, r *Report) {
 	}
 	if n < 3 {
 		r.Unrecognised("C08.6: only %d descents found in lookupByPath", n)
+	}
+}
+
+// checkC08OneSlashApart: a trailing-slash candidate is a route whose path differs from the request path by exactly one
+// '/'. At the three places where the path matcher records one, the difference is a piece of the current node's key or
+// of the path; the rule demands that this piece is tested to be exactly "/" (the sibling sites do it with
+// len(piece) == 1 && piece[0] == '/'; the equivalent forms are accepted).
+func checkC08OneSlashApart(w *World, r *Report) {
+	ru := r.Rule("C08.7", "one slash apart: a candidate `n = parent` (drop the trailing slash) is recorded only where the matched part of the current key, current.key[:charsMatchedInNodeFound], is exactly \"/\"; a candidate `n = current` only where the unmatched rest of the key (add a slash) or of the path (drop it) is exactly \"/\"", 3)
+	af := w.astFuncOf(modulePath, "lookupByPath")
+	// single-definition locals: name -> defining expression
+	defs := map[string]string{}
+	ndefs := map[string]int{}
+	ast.Inspect(af.decl.Body, func(n ast.Node) bool {
+		if as, ok := n.(*ast.AssignStmt); ok && len(as.Lhs) == 1 && len(as.Rhs) == 1 {
+			if id, ok := as.Lhs[0].(*ast.Ident); ok {
+				defs[id.Name] = exprStr(as.Rhs[0])
+				ndefs[id.Name]++
+			}
+		}
+		return true
+	})
+	resolve := func(e string) string {
+		if d, ok := defs[e]; ok && ndefs[e] == 1 {
+			return d
+		}
+		return e
+	}
+	isSlash := func(s string) bool { return s == "slashDelim" || s == "'/'" }
+	// pieces proven to be exactly "/" by the facts
+	exactSlash := func(facts []astFact) map[string]bool {
+		lenOne, firstSlash := map[string]bool{}, map[string]bool{}
+		out := map[string]bool{}
+		for _, f0 := range facts {
+			for _, f := range splitFact(f0) {
+				for _, pr := range [][2]token.Token{{token.EQL, token.NEQ}} {
+					x, y, ok := isCmp(f.e, pr[0])
+					pos := f.val
+					if !ok {
+						x, y, ok = isCmp(f.e, pr[1])
+						pos = !f.val
+					}
+					if !ok || !pos {
+						continue
+					}
+					for _, xy := range [][2]string{{x, y}, {y, x}} {
+						a, b := xy[0], xy[1]
+						if strings.HasPrefix(a, "len(") && b == "1" {
+							lenOne[resolve(strings.TrimSuffix(strings.TrimPrefix(a, "len("), ")"))] = true
+						}
+						if strings.HasSuffix(a, "[0]") && isSlash(b) {
+							firstSlash[resolve(strings.TrimSuffix(a, "[0]"))] = true
+						} else if i := strings.LastIndex(a, "["); i > 0 && strings.HasSuffix(a, "]") && isSlash(b) {
+							// X[k] is the first byte of X[k:]
+							firstSlash[a[:i]+"["+a[i+1:len(a)-1]+":]"] = true
+						}
+						if b == "\"/\"" {
+							out[resolve(a)] = true
+						}
+						// charsMatchedInNodeFound == 1 is len(current.key[:charsMatchedInNodeFound]) == 1
+						if b == "1" && !strings.HasPrefix(a, "len(") {
+							lenOne["current.key[:"+a+"]"] = true
+						}
+					}
+				}
+			}
+		}
+		for p := range lenOne {
+			if firstSlash[p] {
+				out[p] = true
+			}
+			// current.key[:k] starts with current.key[0]
+			if strings.HasPrefix(p, "current.key[:") && firstSlash["current.key"] {
+				out[p] = true
+			}
+		}
+		return out
+	}
+	n := 0
+	for _, b := range af.g.Blocks {
+		if !b.Live {
+			continue
+		}
+		isCand, target := false, ""
+		var at ast.Node
+		for _, nd := range b.Nodes {
+			if as, ok := nd.(*ast.AssignStmt); ok && len(as.Lhs) == 1 && len(as.Rhs) == 1 {
+				if exprStr(as.Lhs[0]) == "tsr" && exprStr(as.Rhs[0]) == "true" {
+					isCand, at = true, as
+				}
+				if exprStr(as.Lhs[0]) == "n" {
+					target = exprStr(as.Rhs[0])
+				}
+			}
+		}
+		if !isCand || (target != "parent" && target != "current") {
+			continue // candidates handed up by a sub-lookup are judged where the sub-lookup records them
+		}
+		n++
+		proven := exactSlash(af.factsAt(b))
+		var ok bool
+		var want string
+		if target == "parent" {
+			want = "current.key[:charsMatchedInNodeFound] is exactly \"/\""
+			ok = proven["current.key[:charsMatchedInNodeFound]"]
+		} else {
+			want = "current.key[charsMatchedInNodeFound:] or path[charsMatched:] is exactly \"/\""
+			ok = proven["current.key[charsMatchedInNodeFound:]"] || proven["path[charsMatched:]"]
+		}
+		var got []string
+		for p := range proven {
+			got = append(got, p)
+		}
+		sort.Strings(got)
+		ru.Check("candidate n = "+target+" in lookupByPath", w.Pos(at.Pos()), want, ok, orDefault(strings.Join(got, ", "), "no piece is tested to be exactly \"/\" here")+map[bool]string{true: " is exactly \"/\"", false: ""}[len(got) > 0])
+	}
+	if n < 3 {
+		r.Unrecognised("C08.7: only %d direct trailing-slash candidates found in lookupByPath", n)
 	}
 }
